@@ -185,7 +185,9 @@ class Exec:
                 if self._check(prefer) == z3.sat:
                     self._record(kind, msg, extra); self.solver.pop()
                 else:
-                    self.solver.pop(); self._record(kind, msg, extra)
+                    self.solver.pop()
+                    self.solver.check()          # the model of the first query was discarded by the failed `prefer` query
+                    self._record(kind, msg, extra)
             else:
                 self._record(kind, msg, extra)
             self.solver.pop()
